@@ -79,30 +79,33 @@ def sym_list(name, n, ft):
 
 
 class _LazyMap(dict):
-    """dict whose entries are decided pseudo-randomly the first time a key is looked at (adjudication mode)"""
+    """dict whose pre-state content is decided pseudo-randomly (deterministically per run seed, map name and key) the
+    first time a key is looked at (adjudication mode).  Writes are logged with a version counter so that snapshots
+    compare maps extensionally (value of every touched key at the snapshot's version), not by the set of keys that
+    happen to have been materialised."""
 
     def __init__(self, name, wrap, lo, hi, rnd):
         dict.__init__(self)
-        self._n, self._wrap, self._lo, self._hi, self._rnd = name, wrap, lo, hi, rnd
+        self._n, self._wrap, self._lo, self._hi = name, wrap, lo, hi
         self._seed = rnd.getrandbits(48) if not hasattr(rnd, "_pyvc_seed") else rnd._pyvc_seed
         rnd._pyvc_seed = self._seed
-        self._seen = {}
-        self._pre = {}
+        self._seen = {}        # key -> present in the pre-state?
+        self._pre = {}         # key -> pre-state value (if present)
+        self._writes = []      # (key, value) in order
 
     def _touch(self, k):
-        if k not in self._seen and not dict.__contains__(self, k):
-            # deterministic per (run seed, map name, key): twin states built in one unit see the same content
+        if k not in self._seen:
             import random as _r
             rr = _r.Random("%s|%s|%s" % (self._seed, self._n, k))
-            self._rnd = rr
-            present = self._rnd.random() < 0.7
+            present = rr.random() < 0.7
             self._seen[k] = present
             if present:
                 lo = self._lo if self._lo is not None else 0
                 hi = self._hi if self._hi is not None else 255
-                v = self._rnd.choice([lo, hi, self._rnd.randint(lo, hi), self._rnd.randint(lo, hi)])
+                v = rr.choice([lo, hi, rr.randint(lo, hi), rr.randint(lo, hi)])
                 self._pre[k] = v
-                dict.__setitem__(self, k, self._wrap(v) if self._wrap is not None else v)
+                if not dict.__contains__(self, k):
+                    dict.__setitem__(self, k, self._wrap(v) if self._wrap is not None else v)
         return None
 
     def __contains__(self, k):
@@ -118,14 +121,17 @@ class _LazyMap(dict):
         return dict.get(self, k, d)
 
     def __setitem__(self, k, v):
-        self._seen.setdefault(k, False)
+        self._touch(k)
+        self._writes.append((k, v))
         dict.__setitem__(self, k, v)
 
-    def model_tables(self):
-        vals, pres = {}, {}
-        for k, p in self._seen.items():
-            pres[k] = p
-        return pres
+    def value_at(self, k, version):
+        """(present, value) of key k after the first `version` writes"""
+        self._touch(k)
+        for kk, vv in reversed(self._writes[:version]):
+            if kk == k:
+                return True, int(vv)
+        return (True, self._pre[k]) if self._seen[k] else (False, None)
 
 
 def sym_map(name, wrap=None, lo=None, hi=None, keys_lo=None, keys_hi=None):
@@ -236,6 +242,8 @@ def _snap(v, seen, ignore):
         return ("tuple", [_snap(x, seen, ignore) for x in v])
     seen[id(v)] = len(seen)
     idx = seen[id(v)]
+    if isinstance(v, _LazyMap):
+        return ("lazymap", idx, v, len(v._writes))
     if isinstance(v, dict):
         return ("dict", idx, [(k, _snap(x, seen, ignore)) for k, x in v.items()])
     if isinstance(v, (set, frozenset)):
@@ -287,6 +295,14 @@ def _diff(x, y, path, out):
             return
         for i, (p, q) in enumerate(zip(xs, ys)):
             _diff(p, q, "%s[%d]" % (path, i), out)
+    elif tag == "lazymap":
+        if x[1] != y[1] or x[2]._n != y[2]._n:
+            out.append(path + ".keys")
+            return
+        keys = set(x[2]._seen) | set(y[2]._seen) | {k for k, _ in x[2]._writes} | {k for k, _ in y[2]._writes}
+        for k in sorted(keys):
+            if x[2].value_at(k, x[3]) != y[2].value_at(k, y[3]):
+                out.append("%s[%r]" % (path, k))
     elif tag == "dict":
         if x[1] != y[1] or [k for k, _ in x[2]] != [k for k, _ in y[2]]:
             # key *order* is not part of the symbolic comparison for maps with symbolic keys
